@@ -188,6 +188,8 @@ typedef struct {
   long         n_requests;   // requests so far (malloc/calloc/realloc/aligned_alloc)
   long         fail_at;      // refuse exactly this request index (0-based), -1 = none
   long         fail_from;    // refuse every request with index >= this, -1 = none
+  size_t       first_size;   // bytes asked for by the first request since the last v_alloc_mark (0 = none yet)
+  bool         marked;
   unsigned long long fail_bits;   // bit k set: refuse request k (k < 64), for arbitrary refusal patterns
   long         n_refused;
   long         n_errors;     // discipline errors
@@ -230,6 +232,20 @@ v_alloc_logf(VAlloc* a, const char* fmt, ...)
 }
 
 #define V_ALLOC_LIMIT ((size_t)1 << 28)
+
+static void
+v_alloc_note(VAlloc* a, size_t size)
+{
+  if (a->marked) { a->first_size = size; a->marked = false; }
+}
+
+// Start watching: the size of the next request is kept in first_size.
+static void
+v_alloc_mark(VAlloc* a)
+{
+  a->first_size = 0;
+  a->marked     = true;
+}
 
 static bool
 v_alloc_refuse(VAlloc* a)
@@ -283,6 +299,7 @@ static void*
 v_malloc(ZixAllocator* al, size_t size)
 {
   VAlloc* a = (VAlloc*)al;
+  v_alloc_note(a, size);
   if (v_alloc_refuse(a)) {
     v_alloc_logf(a, "m%zu=0", size);
     if (a->compact) v_alloc_logf(a, "#M0");
@@ -300,6 +317,7 @@ static void*
 v_calloc(ZixAllocator* al, size_t n, size_t size)
 {
   VAlloc* a = (VAlloc*)al;
+  v_alloc_note(a, n * size);
   if (v_alloc_refuse(a)) {
     v_alloc_logf(a, "c%zux%zu=0", n, size);
     if (a->compact) v_alloc_logf(a, "#C0");
@@ -316,6 +334,7 @@ static void*
 v_realloc(ZixAllocator* al, void* ptr, size_t size)
 {
   VAlloc* a  = (VAlloc*)al;
+  v_alloc_note(a, size);
   VBlock* b  = ptr ? v_alloc_find(a, ptr) : NULL;
   int     id = b ? b->id : (ptr ? -1 : 0);
   if (ptr && !b) {
@@ -395,6 +414,7 @@ static void*
 v_aligned_alloc(ZixAllocator* al, size_t alignment, size_t size)
 {
   VAlloc* a = (VAlloc*)al;
+  v_alloc_note(a, size);
   if (v_alloc_refuse(a)) {
     v_alloc_logf(a, "A%zu:%zu=0", alignment, size);
     if (a->compact) v_alloc_logf(a, "#A0");
